@@ -102,27 +102,30 @@ theorem asc_eraseAsc {x : Nat} {l : List Nat} (h : Asc l) : Asc (eraseAsc x l) :
 theorem eraseAsc_of_not_mem {x : Nat} {l : List Nat} (hx : x ∉ l) : eraseAsc x l = l := by
   unfold eraseAsc; rw [filter_eq_self]; intro a ha; simp; rintro rfl; exact hx ha
 
-theorem mem_diffAsc {y : Nat} {a b : List Nat} : y ∈ diffAsc a b ↔ y ∈ a ∧ y ∉ b := by
-  simp [diffAsc]
+/-! ### The fold / filter formulations (what `Spec.addAll` / `Spec.removeAll` are) -/
 
-theorem asc_diffAsc {a b : List Nat} (h : Asc a) : Asc (diffAsc a b) := Pairwise.filter _ h
+def unionFold (a b : Cell) : Cell := b.foldl (fun acc x => insertAsc x acc) a
+def diffFilter (a b : Cell) : Cell := a.filter (fun x => !b.contains x)
 
-/-! ### unionAsc -/
+theorem mem_diffFilter {y : Nat} {a b : List Nat} : y ∈ diffFilter a b ↔ y ∈ a ∧ y ∉ b := by
+  simp [diffFilter]
 
-theorem mem_unionAsc {y : Nat} {a b : List Nat} : y ∈ unionAsc a b ↔ y ∈ a ∨ y ∈ b := by
-  unfold unionAsc
+theorem asc_diffFilter {a b : List Nat} (h : Asc a) : Asc (diffFilter a b) := Pairwise.filter _ h
+
+theorem mem_unionFold {y : Nat} {a b : List Nat} : y ∈ unionFold a b ↔ y ∈ a ∨ y ∈ b := by
+  unfold unionFold
   induction b generalizing a with
   | nil => simp
   | cons x t ih => simp only [foldl_cons, ih, mem_insertAsc, mem_cons]; grind
 
-theorem asc_unionAsc {a b : List Nat} (h : Asc a) : Asc (unionAsc a b) := by
-  unfold unionAsc
+theorem asc_unionFold {a b : List Nat} (h : Asc a) : Asc (unionFold a b) := by
+  unfold unionFold
   induction b generalizing a with
   | nil => simpa
   | cons x t ih => simp only [foldl_cons]; exact ih (asc_insertAsc h)
 
-theorem length_le_unionAsc {a b : List Nat} (h : Asc a) : a.length ≤ (unionAsc a b).length := by
-  unfold unionAsc
+theorem length_le_unionFold {a b : List Nat} (h : Asc a) : a.length ≤ (unionFold a b).length := by
+  unfold unionFold
   induction b generalizing a with
   | nil => simp
   | cons x t ih =>
@@ -131,25 +134,23 @@ theorem length_le_unionAsc {a b : List Nat} (h : Asc a) : a.length ≤ (unionAsc
     have h2 := length_insertAsc (x := x) h
     split at h2 <;> omega
 
-/-- Union that does not grow adds nothing. -/
-theorem unionAsc_eq_of_length {a b : List Nat} (h : Asc a) (hl : (unionAsc a b).length = a.length) :
-    unionAsc a b = a := by
-  unfold unionAsc at *
+theorem unionFold_eq_of_length {a b : List Nat} (h : Asc a) (hl : (unionFold a b).length = a.length) :
+    unionFold a b = a := by
+  unfold unionFold at *
   induction b generalizing a with
   | nil => simp
   | cons x t ih =>
     simp only [foldl_cons] at *
-    have hge := length_le_unionAsc (b := t) (asc_insertAsc (x := x) h)
-    unfold unionAsc at hge
+    have hge := length_le_unionFold (b := t) (asc_insertAsc (x := x) h)
+    unfold unionFold at hge
     have h2 := length_insertAsc (x := x) h
     by_cases hx : x ∈ a
     · rw [insertAsc_of_mem h hx] at hl ⊢; exact ih h hl
     · simp [hx] at h2; omega
 
-/-- The growth of a union is the number of new values. -/
-theorem length_unionAsc {a b : List Nat} (h : Asc a) (hb : b.Nodup) :
-    (unionAsc a b).length = a.length + (b.filter (fun x => !a.contains x)).length := by
-  unfold unionAsc
+theorem length_unionFold {a b : List Nat} (h : Asc a) (hb : b.Nodup) :
+    (unionFold a b).length = a.length + (b.filter (fun x => !a.contains x)).length := by
+  unfold unionFold
   induction b generalizing a with
   | nil => simp
   | cons x t ih =>
@@ -227,6 +228,204 @@ theorem asc_ext {l₁ l₂ : List Nat} (h₁ : Asc l₁) (h₂ : Asc l₂) (h : 
         rcases mem_cons.mp this with e | hv'
         · have := h₂.1 v hv; omega
         · exact hv'
+
+/-! ### The merge formulations used by the model (`unionAsc`, `diffAsc`) -/
+
+theorem mem_unionAux {y : Nat} : ∀ (n : Nat) (a b : List Nat), a.length + b.length ≤ n →
+    (y ∈ unionAux n a b ↔ y ∈ a ∨ y ∈ b) := by
+  intro n
+  induction n with
+  | zero =>
+    intro a b h
+    have ha : a = [] := length_eq_zero_iff.mp (by omega)
+    have hb : b = [] := length_eq_zero_iff.mp (by omega)
+    subst ha; subst hb; simp [unionAux]
+  | succ n ih =>
+    intro a b h
+    cases a with
+    | nil => simp [unionAux]
+    | cons x xs =>
+      cases b with
+      | nil => simp [unionAux]
+      | cons z zs =>
+        simp only [length_cons] at h
+        simp only [unionAux]
+        split
+        · rw [mem_cons, ih xs (z :: zs) (by simp only [length_cons]; omega)]; simp only [mem_cons]; grind
+        · split
+          · rw [mem_cons, ih (x :: xs) zs (by simp only [length_cons]; omega)]; simp only [mem_cons]; grind
+          · have : x = z := by omega
+            subst this
+            rw [mem_cons, ih xs zs (by omega)]; simp only [mem_cons]; grind
+
+theorem mem_unionAsc {y : Nat} {a b : List Nat} : y ∈ unionAsc a b ↔ y ∈ a ∨ y ∈ b :=
+  mem_unionAux _ a b (Nat.le_refl _)
+
+theorem asc_unionAux : ∀ (n : Nat) (a b : List Nat), a.length + b.length ≤ n → Asc a → Asc b →
+    Asc (unionAux n a b) := by
+  intro n
+  induction n with
+  | zero => intro a b _ ha _; simpa [unionAux] using ha
+  | succ n ih =>
+    intro a b h ha hb
+    cases a with
+    | nil => simpa [unionAux] using hb
+    | cons x xs =>
+      cases b with
+      | nil => simpa [unionAux] using ha
+      | cons z zs =>
+        simp only [length_cons] at h
+        have ha' := asc_cons.mp ha
+        have hb' := asc_cons.mp hb
+        simp only [unionAux]
+        split
+        · rename_i hlt
+          have hl : xs.length + (z :: zs).length ≤ n := by simp only [length_cons]; omega
+          rw [asc_cons]; refine ⟨?_, ih xs (z :: zs) hl ha'.2 hb⟩
+          intro w hw
+          rcases (mem_unionAux n xs (z :: zs) hl).mp hw with h1 | h1
+          · exact ha'.1 w h1
+          · rcases mem_cons.mp h1 with rfl | h2
+            · exact hlt
+            · have := hb'.1 w h2; omega
+        · split
+          · rename_i hnlt hlt
+            have hl : (x :: xs).length + zs.length ≤ n := by simp only [length_cons]; omega
+            rw [asc_cons]; refine ⟨?_, ih (x :: xs) zs hl ha hb'.2⟩
+            intro w hw
+            rcases (mem_unionAux n (x :: xs) zs hl).mp hw with h1 | h1
+            · rcases mem_cons.mp h1 with rfl | h2
+              · exact hlt
+              · have := ha'.1 w h2; omega
+            · exact hb'.1 w h1
+          · have hxz : x = z := by omega
+            subst hxz
+            have hl : xs.length + zs.length ≤ n := by omega
+            rw [asc_cons]; refine ⟨?_, ih xs zs hl ha'.2 hb'.2⟩
+            intro w hw
+            rcases (mem_unionAux n xs zs hl).mp hw with h1 | h1
+            · exact ha'.1 w h1
+            · exact hb'.1 w h1
+
+theorem asc_unionAsc {a b : List Nat} (ha : Asc a) (hb : Asc b) : Asc (unionAsc a b) :=
+  asc_unionAux _ a b (Nat.le_refl _) ha hb
+
+/-- On ascending lists the merge is the fold of inserts (i.e. `Spec.addAll`). -/
+theorem unionAsc_eq_fold {a b : List Nat} (ha : Asc a) (hb : Asc b) : unionAsc a b = unionFold a b :=
+  asc_ext (asc_unionAsc ha hb) (asc_unionFold ha) (fun v => by rw [mem_unionAsc, mem_unionFold])
+
+theorem length_le_unionAsc {a b : List Nat} (ha : Asc a) (hb : Asc b) : a.length ≤ (unionAsc a b).length := by
+  rw [unionAsc_eq_fold ha hb]; exact length_le_unionFold ha
+
+theorem unionAsc_eq_of_length {a b : List Nat} (ha : Asc a) (hb : Asc b)
+    (hl : (unionAsc a b).length = a.length) : unionAsc a b = a := by
+  rw [unionAsc_eq_fold ha hb] at hl ⊢; exact unionFold_eq_of_length ha hl
+
+theorem asc_nodup' {l : List Nat} (h : Asc l) : l.Nodup := by
+  unfold Asc at h
+  exact Pairwise.imp (fun {a b} hab => by omega) h
+
+theorem length_unionAsc {a b : List Nat} (ha : Asc a) (hb : Asc b) :
+    (unionAsc a b).length = a.length + (b.filter (fun x => !a.contains x)).length := by
+  rw [unionAsc_eq_fold ha hb]; exact length_unionFold ha (asc_nodup' hb)
+
+theorem diffAux_sublist : ∀ (n : Nat) (a b : List Nat), diffAux n a b <+ a := by
+  intro n
+  induction n with
+  | zero => intro a b; simp [diffAux]
+  | succ n ih =>
+    intro a b
+    cases a with
+    | nil => simp [diffAux]
+    | cons x xs =>
+      cases b with
+      | nil => simp [diffAux]
+      | cons z zs =>
+        simp only [diffAux]
+        split
+        · exact (ih xs (z :: zs)).cons_cons x
+        · split
+          · exact ih (x :: xs) zs
+          · exact (ih xs zs).cons x
+
+theorem diffAsc_sublist (a b : List Nat) : diffAsc a b <+ a := diffAux_sublist _ a b
+
+theorem asc_diffAsc {a b : List Nat} (h : Asc a) : Asc (diffAsc a b) :=
+  Pairwise.sublist (diffAsc_sublist a b) h
+
+theorem mem_diffAux {y : Nat} : ∀ (n : Nat) (a b : List Nat), a.length + b.length ≤ n → Asc a → Asc b →
+    (y ∈ diffAux n a b ↔ y ∈ a ∧ y ∉ b) := by
+  intro n
+  induction n with
+  | zero =>
+    intro a b h _ _
+    have hb : b = [] := length_eq_zero_iff.mp (by omega)
+    subst hb; simp [diffAux]
+  | succ n ih =>
+    intro a b h ha hb
+    cases a with
+    | nil => simp [diffAux]
+    | cons x xs =>
+      cases b with
+      | nil => simp [diffAux]
+      | cons z zs =>
+        simp only [length_cons] at h
+        have ha' := asc_cons.mp ha
+        have hb' := asc_cons.mp hb
+        simp only [diffAux]
+        split
+        · rename_i hlt
+          rw [mem_cons, ih xs (z :: zs) (by simp only [length_cons]; omega) ha'.2 hb]
+          simp only [mem_cons]
+          constructor
+          · rintro (rfl | ⟨h1, h2⟩)
+            · refine ⟨Or.inl rfl, ?_⟩
+              rintro (e | e)
+              · omega
+              · have := hb'.1 y e; omega
+            · exact ⟨Or.inr h1, h2⟩
+          · rintro ⟨h1 | h1, h2⟩
+            · exact Or.inl h1
+            · exact Or.inr ⟨h1, h2⟩
+        · split
+          · rename_i hnlt hlt
+            rw [ih (x :: xs) zs (by simp only [length_cons]; omega) ha hb'.2]
+            simp only [mem_cons]
+            constructor
+            · rintro ⟨h1, h2⟩
+              refine ⟨h1, ?_⟩
+              rintro (e | e)
+              · rcases h1 with e1 | e1
+                · omega
+                · have := ha'.1 y e1; omega
+              · exact h2 e
+            · rintro ⟨h1, h2⟩
+              exact ⟨h1, fun e => h2 (Or.inr e)⟩
+          · have hxz : x = z := by omega
+            subst hxz
+            rw [ih xs zs (by omega) ha'.2 hb'.2]
+            simp only [mem_cons]
+            constructor
+            · rintro ⟨h1, h2⟩
+              refine ⟨Or.inr h1, ?_⟩
+              rintro (e | e)
+              · have := ha'.1 y h1; omega
+              · exact h2 e
+            · rintro ⟨h1 | h1, h2⟩
+              · exact absurd (Or.inl h1) h2
+              · exact ⟨h1, fun e => h2 (Or.inr e)⟩
+
+theorem mem_diffAsc {y : Nat} {a b : List Nat} (ha : Asc a) (hb : Asc b) :
+    y ∈ diffAsc a b ↔ y ∈ a ∧ y ∉ b :=
+  mem_diffAux _ a b (Nat.le_refl _) ha hb
+
+/-- On ascending lists the merge difference is the filter (i.e. `Spec.removeAll`). -/
+theorem diffAsc_eq_filter {a b : List Nat} (ha : Asc a) (hb : Asc b) : diffAsc a b = diffFilter a b :=
+  asc_ext (asc_diffAsc ha) (asc_diffFilter ha) (fun v => by rw [mem_diffAsc ha hb, mem_diffFilter])
+
+theorem diffAsc_nil (b : List Nat) : diffAsc [] b = [] := by
+  have := diffAsc_sublist [] b
+  exact eq_nil_of_sublist_nil this
 
 /-! ### Heap -/
 
